@@ -39,6 +39,30 @@ CHECKS = {
  'C06': dict(level='exploration', ref='3/C06', technique='trainer monitor: harness tallies of the SEGMENTED events vs every file the real trainer wrote (byte-level reader) + fresh-process determinism of the real trainer.py under different hash seeds',
    text='Held on every completed training explored: every terminal/mask/base/Prince/raw list holds exactly the tallied items once, probability = count/total (1e-12), most-to-least probable, sum 1; Markov pseudo-count N(1/c-1), absent for coverage 1, sole entry for coverage 0; e-mail/website structures only in raw_grammar.txt; config file lists = files on disk; two CLI trainings in fresh processes with different PYTHONHASHSEED are byte-identical apart from the uuid line.',
    note='Trusts the harness tally (C05 validates the segments it is built from); provider/host lists not re-derived; alpha lists containing Greek sigma compared elsewhere (context-sensitive lower()).'),
+ 'C07': dict(level='exploration', ref='3/C07', technique='round-trip monitor: real trainer on lists carrying each code point in 8 placements, then byte-level reader vs harness tally vs real guesser loader vs real scorer loader vs both OMEN loaders',
+   text='Held for every code point explored (quick: every splitlines/strip-special code point + random BMP/astral under 4 encodings; thorough: ALL 63488 BMP scalars under utf-8 + 4000 astral + 6 legacy encodings): the input filter accepts exactly the reference-valid passwords, and every value/probability the trainer wrote is read back identically by the LF-only reference reader, the guesser loader, the scorer loader and the three OMEN readers; config file lists equal directory listings; loaders print no diagnostics.',
+   note='U+0130 excluded (its segmentation is finding F-C05); ASCII-compatible encodings; thorough tier is exhaustive over BMP scalars for utf-8 only.'),
+ 'C11': dict(level='exploration', ref='3/C11', technique='three-way differential monitor on every candidate string: captured trainer state (find_omen_level) vs real OmenScorer vs level at which the real MarkovCracker emits it, anchored to a reference level computed from the files',
+   text='Held on every candidate of every explored training (training passwords, every string the generator emits at any level, all short strings over alphabet + a foreign symbol, empty and over-long strings): the four level numbers coincide (or all say -1), no string is generated at two levels, and omen_pws_per_level.txt equals the tally of the trainer levels.',
+   note='max_len 5-8 handed to run_trainer so the generator can be enumerated; models <= 60000 strings.'),
+ 'C13': dict(level='exploration', ref='3/C13', technique='scorer monitor: real PCFGPasswordScorer on training passwords / guesser output / perturbations, detectors wrapped as imported into the scorer, membership + probability lookup in the language the real guesser emits, repeated and shuffled scoring on two scorer instances',
+   text='Held on every candidate explored: p > 0 implies the guesser (default flags) emits that exact string from a pre-terminal of probability p (1e-9 relative); a detected e-mail / website gives category e / w and probability 0, nothing detected never gives e / w; scores are identical when asked again in another order and on a freshly loaded scorer. Candidates with letters outside the one-to-one case domain hit the recorded finding F-C13.',
+   note='Languages <= 300000 guesses; Markov pre-terminals are not part of the PCFG score.'),
+ 'C16': dict(level='exploration', ref='3/C16', technique='scripted random source inside pcfg_grammar: every region of every uniform draw is probed (midpoint, edges, breakpoints +-1ulp, 0, 1-2^-53) and compared with an exact-rational reference sampler; CLI runs for count, language membership and reproducibility',
+   text='Held on every explored ruleset (normalised, un-normalised/edited, trained; skip_brute on/off): for every region of the base draw and of each variable position the real random_walk selects the derivation the reference sampler selects (weights prob x group size, normalised by the list total), scripted value/mask choices give exactly the reference word, honeywords -n N writes N words of the non-Markov language, two random_walk processes are byte-identical.',
+   note='Distribution is conditional on a non-Markov structure; at breakpoints +-1ulp either neighbour accepted; rulesets are sampled, regions per ruleset are enumerated.'),
+ 'C17': dict(level='exploration', ref='3/C17', technique='monitor on the real create_prince_wordlist (every PcfgQueue.next and every word) vs reference language of the Prince folder; every --size N for small lists; CLI stdout vs -o file',
+   text='Held on every explored ruleset and both --all_lower settings: unbounded output equals the terminals of the Prince grammar once each, pre-terminal probabilities non-increasing, --size N gives exactly the first N words for every N (all N for lists <= 400 words), stdout and -o FILE identical.',
+   note='Word lists <= 5000 words; the unbounded in-process list is the reference for --size.'),
+ 'C18': dict(level='exploration', ref='3/C18', technique='differential monitor: omen_keyspace.txt / pcfg_omen_prob.txt written by the real trainer vs number of distinct strings the real MarkovCracker emits per level vs brute-force count from the files',
+   text='Held for every level listed by every explored training (lists dominated by length == ngram, a single length, or mixed): keyspace == generator count == reference count, and the saved probability == (passwords at the level / N) / keyspace within 1e-12.',
+   note='max_len 5-8 harness bound; models <= 200000 strings; the 10^10 cut-off is out of reach.'),
+ 'C19': dict(level='exploration', ref='3/C19', technique='history/differential monitor: real read_password() vs an LF-only reference reader on five renderings of one logical list with junk lines; the three passes of the real run_trainer recorded and compared; trained trees compared byte-wise',
+   text='Held on every explored list x {plain, all-hex, mixed, count-prefixed, prefixed+hex} x {LF, CRLF}: the real reader yields exactly the reference sequence and counters, junk lines (blank, TAB, every C0 control incl. the codec line separators, NEL/LS/PS, undecodable bytes, malformed $HEX) are skipped without leaking, all three training passes see the same sequence, and the five trained rulesets are byte-identical modulo uuid/filename.',
+   note='Lone CR inside a line not generated; ASCII integer count prefixes.'),
+ 'C20': dict(level='exploration', ref='3/C20', technique='file-system monitor (sha256 snapshots + sys.addaudithook write/remove log) around the real edit_rules() + reference filter on independently tokenised labels + guess-length monitor on the edited ruleset',
+   text='Held on every explored (ruleset, options, --copy) combination: the edited grammar.txt is the original list minus exactly the structures failing the length / terminal-set / regex filters, survivors byte-identical and in order, no other file written or removed, source untouched under --copy; guesses of the edited ruleset respect the bounds except through context (X) segments, the recorded finding F-C20.',
+   note='Label lengths <= 999; membership of X-structures under a length filter not judged; Markov structure kept by a length filter.'),
 }
 PENDING = {}
 def main():
